@@ -63,8 +63,10 @@ def run_mc(ctx):
     return txt
 
 
-def run_traces(ctx, b, cases, tag):
+def run_traces(ctx, b, cases, tag, sections=("mc", "gen")):
     for sec, extra in (("mc", [cases]), ("gen", [])):
+        if sec not in sections:
+            continue
         tr = ctx.scratch.path("x10-%s-%s.ndjson" % (tag, sec))
         ok, out = ctx.run_harness(b, [tr, ctx.tier, sec] + extra, tr)
         if not ok:
@@ -83,10 +85,16 @@ def run(ctx):
         return
     run_traces(ctx, b, cases, "pure")
     if not ctx.quick:
-        # the same harness with aligned default types and intrinsics (vec4 / mat4 arithmetic of the covariance accumulation)
+        # the same harness with aligned default types and intrinsics (vec4 / mat4 arithmetic of the covariance accumulation) on every
+        # 6th case of MC_X10 (measured: the traces of this build are bit-identical to the pure ones, the functions are scalar loops)
         ba = ctx.build("x10_aligned_sse2", "x10.cpp", flags=["-DGLM_FORCE_INTRINSICS", "-DGLM_FORCE_DEFAULT_ALIGNED_GENTYPES", "-msse2"], opt="-O1", must=False)
         if ba:
-            run_traces(ctx, ba, cases, "aligned-sse2")
+            with open(cases) as f:
+                sub = f.readlines()[::6]
+            small = ctx.scratch.path("x10-cases-aligned.txt")
+            with open(small, "w") as g:
+                g.writelines(sub)
+            run_traces(ctx, ba, small, "aligned-sse2", sections=("mc",))
     ctx.rule("computeCovarianceMatrix (pointer + count, pointer + count + centre, random-access iterator range, bidirectional iterator range + "
              "centre; D = 2, 3, 4) on the integer point sets of MC_X10 (exact up to the one division), on their dyadic scalings and on random "
              "dyadic clouds of 1..64 (257) points; findEigenvaluesSymReal (2x2, 3x3, 4x4) on the symmetric integer matrices of MC_X10 with their "
